@@ -16,19 +16,26 @@
 #include "post.h"
 
 #define NMAX ((size_t)1 << 40)
+/* reads of the caller's (symbolic-size) arrays at a symbolic signature index: in the bounded variant the index is
+ * enumerated so that every read has a constant offset (array theory cost) */
+#ifdef C17_NBOUND
+#define FOR_IDX(k, v) for (k = 0; k <= C17_NBOUND; k++) if (k == (v))
+#else
+#define FOR_IDX(k, v) k = (v);
+#endif
 
 void h_aggverify(void) {
     secp256k1_context ctx;
     INPUT(size_t, n); INPUT(size_t, alen); INPUT(size_t, gk); INPUT(uint64_t, wpos);
     INPUT(_Bool, use_pk); INPUT(_Bool, use_msgs); INPUT(_Bool, use_agg); INPUT(_Bool, built);
-    unsigned char *aggsig, *msgs; secp256k1_xonly_pubkey *pks; size_t nn; int ret, args_ok, len_ok;
-    wide nw = N_(), p = P_();
+    unsigned char *aggsig, *msgs; secp256k1_xonly_pubkey *pks; size_t nn, k; int ret, args_ok, len_ok;
+    wide nw = N_(), p = P_(), sv = 0;
     __CPROVER_assume(alen <= 32 * (NMAX + 1));
 #ifdef C17_NBOUND
     __CPROVER_assume(n <= C17_NBOUND);   /* BOUNDED stand-in: the loop over n is unwound instead of closed by its loop contract */
 #endif
     nn = n <= NMAX ? n : 0;     /* for n > NMAX the length can never match: the arrays must not be touched at all */
-    INPUT_BUF(aggw, aggsig, alen, 96);
+    INPUT_BUF(aggw, aggsig, alen, 64);
     pks = malloc(nn ? nn * sizeof(*pks) : 1); msgs = malloc(nn ? nn * 32 : 1);
     __CPROVER_assume(pks != NULL && msgs != NULL);
     verif_ctx_init(&ctx); ctx.hash_ctx.fn_sha256_compression = secp256k1_sha256_transform; ctx.ecmult_gen_ctx.built = built;
@@ -36,20 +43,22 @@ void h_aggverify(void) {
     c17_aggsig = aggsig; c17_msgs = msgs; c17_pks = pks; c17_n = n; c17_nb = 0; c17_sigs = NULL;
     verif_c17_xo_n = 0; verif_c17_fin_n = 0; verif_c17_bad = 0; verif_c17_rej = 0; verif_c17_whit = 0;
     len_ok = (W(alen) == 32 * (W(n) + 1));
-    verif_c17_gk = gk; verif_c17_gk_ok = (len_ok && gk < n) ? (be256(aggsig + 32 * gk) < p) : 1;
+    verif_c17_gk = gk; verif_c17_gk_ok = 1; c17_exp_r = 0; c17_exp_px = 0; c17_exp_py = 0; c17_exp_s = 0;
+    if (len_ok && gk < n) FOR_IDX(k, gk) { c17_exp_r = be256(aggsig + 32 * k); c17_exp_px = c17_le256(pks[k].data); c17_exp_py = c17_le256(pks[k].data + 32); verif_c17_gk_ok = (c17_exp_r < p); }
+    if (len_ok) FOR_IDX(k, n) sv = be256(aggsig + 32 * k);
     /* expected byte at stream position wpos of the running hash: signature t = (wpos-64)/96, r_t || be(x(pk_t)) || m_t */
     verif_c17_wpos = wpos; verif_c17_wexp = 0;
     if (len_ok && wpos >= 64 && wpos < 64 + 96 * (uint64_t)n) { size_t t = (wpos - 64) / 96, o = (wpos - 64) % 96;
-        verif_c17_wexp = o < 32 ? aggsig[32 * t + o] : o < 64 ? pks[t].data[31 - (o - 32)] : msgs[32 * t + (o - 64)]; }
+        FOR_IDX(k, t) verif_c17_wexp = o < 32 ? aggsig[32 * k + o] : o < 64 ? pks[k].data[31 - (o - 32)] : msgs[32 * k + (o - 64)]; }
 
     ret = secp256k1_schnorrsig_aggverify(&ctx, use_pk ? pks : NULL, use_msgs ? msgs : NULL, n, use_agg ? aggsig : NULL, alen);
-    WITNESS_BUF(aggw, aggsig, alen, 96);
+    WITNESS_BUF(aggw, aggsig, alen, 64);
 
     __CPROVER_assert(ret == 0 || ret == 1, "C17 aggverify: returns 0 or 1");
     __CPROVER_assert(g_error == 0, "C17 aggverify: error callback never invoked");
     args_ok = (use_pk || n == 0) && (use_msgs || n == 0) && use_agg && built;
     if (!args_ok) { __CPROVER_assert(ret == 0 && g_illegal == 1 && verif_c17_xo_n == 0 && g_gen_n == 0, "C17 aggverify: API misuse reports illegal use, returns 0, verifies nothing"); REACH("aggverify API misuse"); return; }
-    __CPROVER_assert(g_illegal == 0, "C17 aggverify: no callback on well-formed arguments");
+    __CPROVER_assert(g_illegal == 0 || (ret == 0 && len_ok && n > 0), "C17 aggverify: no callback on well-formed arguments, except for an invalid public key object met while verifying (then 0)");
     if (!len_ok) { __CPROVER_assert(ret == 0 && verif_c17_xo_n == 0 && g_gen_n == 0 && verif_c17_fin_n == 0 && verif_c17_whit == 0, "C17 aggverify: aggsig_len != 32*(n+1) is rejected before anything is read");
         if (alen == 32 * n) REACH("aggverify length for n-1"); if (alen % 32 == 5 && alen / 32 == n + 1) REACH("aggverify length not a multiple of 32"); 
 #ifndef C17_NBOUND
@@ -60,9 +69,9 @@ void h_aggverify(void) {
         __CPROVER_assert(verif_c17_xo_n == n && verif_c17_bad == 0 && verif_c17_rej == 0, "C17 aggverify: accept => n lifts, each of exactly x = r_i with even y, each successful; each challenge on (r_i, m_i, 32, pk_i); e_i*P_i, z_i = digest_i mod n (i != 0); hash bytes as specified");
         __CPROVER_assert(verif_c17_fin_n == n && c17_init_n == 1, "C17 aggverify: one randomizer per signature, one running hash initialised once");
         if (wpos >= 64 && wpos < 64 + 96 * (uint64_t)n) __CPROVER_assert(verif_c17_whit, "C17 aggverify: every position of r_i || pk_i || m_i, i < n, is written to the running hash");
-        if (gk < n) __CPROVER_assert(be256(aggsig + 32 * gk) < p, "C17 aggverify: accept => every r_i < p");
-        __CPROVER_assert(be256(aggsig + 32 * n) < nw, "C17 aggverify: s >= group order is rejected");
-        __CPROVER_assert(g_gen_n == 1 && sval(&g_gen_a0) == be256(aggsig + 32 * n), "C17 aggverify: lhs = s*G for s = the last 32 bytes");
+        if (gk < n) __CPROVER_assert(c17_exp_r < p, "C17 aggverify: accept => every r_i < p");
+        __CPROVER_assert(sv < nw, "C17 aggverify: s >= group order is rejected");
+        __CPROVER_assert(g_gen_n == 1 && sval(&g_gen_a0) == sv, "C17 aggverify: lhs = s*G for s = the last 32 bytes");
     }
     if (g_gen_n == 1) __CPROVER_assert(ret == c17_last_inf, "C17 aggverify: result is the infinity verdict of lhs - rhs");
     else __CPROVER_assert(ret == 0, "C17 aggverify: no acceptance without the final comparison");
@@ -78,5 +87,5 @@ void h_aggverify(void) {
     if (ret == 0 && g_gen_n == 1) REACH("aggverify rejects at the final comparison");
     if (ret == 0 && g_gen_n == 0 && verif_c17_xo_n == n && verif_c17_rej == 0) REACH("aggverify rejects s >= n");
     if (ret == 0 && verif_c17_rej == 1 && n > 1) REACH("aggverify rejects on a lift verdict");
-    if (ret == 0 && gk < n && n > 2 && gk == 1 && be256(aggsig + 32 * gk) >= p) REACH("aggverify rejects r_1 >= p");
+    if (ret == 0 && gk < n && n > 2 && gk == 1 && c17_exp_r >= p) REACH("aggverify rejects r_1 >= p");
 }
